@@ -240,6 +240,88 @@ Proof.
   - apply nth_error_None in E. unfold zlen in Hz. lia.
 Qed.
 
+(* ---------------------------------------------------------------- binary map / set operations *)
+Lemma mlookup_app k a b :
+  mlookup k (a ++ b) = match mlookup k a with Some v => Some v | None => mlookup k b end.
+Proof. induction a as [|[k' v] a IH]; simpl; [reflexivity|]. destruct (key_eqb k k'); [reflexivity|exact IH]. Qed.
+
+Lemma mlookup_filter_absent k l r : mlookup k l = None ->
+  mlookup k (filter (fun kv => match mlookup (fst kv) l with Some _ => false | None => true end) r) = mlookup k r.
+Proof.
+  intros Hl. induction r as [|[k' v] r IH]; simpl; [reflexivity|].
+  destruct (key_eqb k k') eqn:E.
+  - apply key_eqb_eq in E. subst k'. rewrite Hl. simpl. rewrite key_eqb_refl. reflexivity.
+  - destruct (mlookup k' l); simpl; [exact IH|]. rewrite E. exact IH.
+Qed.
+
+(* hash-union: for every key, the left value wins, otherwise the right one *)
+Lemma union_spec_lemma k l r :
+  mlookup k (munion l r) = match mlookup k l with Some v => Some v | None => mlookup k r end.
+Proof.
+  unfold munion. rewrite mlookup_app. destruct (mlookup k l) eqn:E; [reflexivity|].
+  apply mlookup_filter_absent. exact E.
+Qed.
+
+Lemma nodup_app {A} (a b : list A) : NoDup a -> NoDup b -> (forall x, In x a -> ~ In x b) -> NoDup (a ++ b).
+Proof.
+  induction a as [|x a IH]; intros Ha Hb Hd; simpl; [exact Hb|]. inversion Ha; subst. constructor.
+  - intros Hin. apply in_app_or in Hin as [Hin|Hin]; [contradiction|]. apply (Hd x); [left; reflexivity|exact Hin].
+  - apply IH; auto. intros y Hy. apply Hd. right; exact Hy.
+Qed.
+Lemma nodup_map_filter {A B} (f : A -> B) (p : A -> bool) l : NoDup (map f l) -> NoDup (map f (filter p l)).
+Proof.
+  induction l as [|x l IH]; simpl; intros H; [constructor|]. inversion H; subst.
+  destruct (p x); simpl; [|apply IH; assumption]. constructor; [|apply IH; assumption].
+  intros Hin. apply H2. apply in_map_iff in Hin as [y [E Hy]]. apply filter_In in Hy as [Hy _].
+  rewrite <- E. apply in_map. exact Hy.
+Qed.
+Lemma munion_nodup l r : NoDup (map fst l) -> NoDup (map fst r) -> NoDup (map fst (munion l r)).
+Proof.
+  intros Hl Hr. unfold munion. rewrite map_app. apply nodup_app; [exact Hl|apply nodup_map_filter; exact Hr|].
+  intros k Hk Hin. apply in_map_iff in Hin as [[k' v] [E Hf]]. simpl in E. subst k'.
+  apply filter_In in Hf as [_ Hf]. simpl in Hf. apply lookup_in_keys in Hk.
+  destruct (mlookup k l); [discriminate|congruence].
+Qed.
+Lemma map_of_nodup kvs : NoDup (map fst (map_of kvs)).
+Proof.
+  unfold map_of. assert (G : forall acc, NoDup (map fst acc) ->
+    NoDup (map fst (fold_left (fun m kv => minsert (fst kv) (snd kv) m) kvs acc))).
+  { induction kvs as [|kv kvs IH]; intros acc H; simpl; [exact H|]. apply IH. apply insert_nodup. exact H. }
+  apply G. constructor.
+Qed.
+Lemma set_of_nodup ks : NoDup (set_of ks).
+Proof.
+  unfold set_of. assert (G : forall acc, NoDup acc -> NoDup (fold_left (fun s k => sinsert k s) ks acc)).
+  { induction ks as [|k ks IH]; intros acc H; simpl; [exact H|]. apply IH. apply sinsert_nodup. exact H. }
+  apply G. constructor.
+Qed.
+
+Lemma sunion_spec l r x : In x (sunion l r) <-> In x l \/ In x r.
+Proof. unfold sunion. rewrite set_refines_lemma. tauto. Qed.
+Lemma sunion_nodup l r : NoDup l -> NoDup (sunion l r).
+Proof.
+  unfold sunion. revert l. induction r as [|k r IH]; intros l H; simpl; [exact H|]. apply IH. apply sinsert_nodup. exact H.
+Qed.
+Lemma sinter_spec l r x : In x (sinter l r) <-> In x l /\ In x r.
+Proof. unfold sinter. rewrite filter_In, smem_in. tauto. Qed.
+Lemma smem_false k s : smem k s = false <-> ~ In k s.
+Proof. rewrite <- smem_in. destruct (smem k s); split; intros H; try congruence; exfalso; apply H; reflexivity. Qed.
+(* hashset-difference is the symmetric difference *)
+Lemma ssymdiff_spec l r x : In x (ssymdiff l r) <-> (In x l /\ ~ In x r) \/ (In x r /\ ~ In x l).
+Proof.
+  unfold ssymdiff. rewrite in_app_iff, !filter_In, !negb_true_iff, !smem_false. tauto.
+Qed.
+Lemma ssymdiff_nodup l r : NoDup l -> NoDup r -> NoDup (ssymdiff l r).
+Proof.
+  intros Hl Hr. unfold ssymdiff. apply nodup_app; try (apply NoDup_filter; assumption).
+  intros x Hx Hy. apply filter_In in Hx as [Hx _]. apply filter_In in Hy as [_ Hy].
+  apply negb_true_iff in Hy. apply smem_false in Hy. contradiction.
+Qed.
+Lemma ssubset_spec l r : ssubset l r = true <-> incl l r.
+Proof.
+  unfold ssubset, incl. rewrite forallb_forall. split; intros H x Hx; [apply smem_in|apply smem_in]; apply H; exact Hx.
+Qed.
+
 (* every program on a map / set keeps the representation invariant (pairwise distinct keys) *)
 Definition coll_ok (c : coll) : Prop :=
   match c with CMap m => NoDup (map fst m) | CSet s => NoDup s | _ => True end.
@@ -249,10 +331,10 @@ Proof.
     repeat match type of E with
            | context [match ?x with _ => _ end] => destruct x; try discriminate
            end;
-    inversion E; subst; cbn [coll_ok]; try exact I.
-  - apply insert_nodup; exact H.
-  - apply remove_nodup; exact H.
-  - apply sinsert_nodup; exact H.
+    inversion E; subst; cbn [coll_ok]; try exact I;
+    auto using insert_nodup, remove_nodup, sinsert_nodup, munion_nodup, map_of_nodup, set_of_nodup,
+               sunion_nodup, ssymdiff_nodup, NoDup_nil;
+    try (simpl; constructor); try (unfold sinter; apply NoDup_filter; exact H).
 Qed.
 Lemma run_ok_lemma : forall ops c acc outs c', coll_ok c -> run c ops acc = inl (outs, c') -> coll_ok c'.
 Proof.
